@@ -58,7 +58,16 @@ impl Ord for CountedEp {
 #[derive(Clone, Debug, PartialEq, Eq, Hash, Serialize, Deserialize)]
 pub enum Case {
     Retention { upload: bool, intervening: u16, seed: u16, buffered_blocks: u8 },
-    Expiry { upload: bool, millis: u16, #[serde(default)] busy: bool },
+    Expiry {
+        upload: bool,
+        millis: u16,
+        #[serde(default)]
+        busy: bool,
+        /// after the idle period the key is first touched by a plain request
+        /// with a small reply, then by the follow-up block request
+        #[serde(default)]
+        plain_first: bool,
+    },
     Reclaim { abandoned: u8, millis: u16, uploads: bool, #[serde(default)] busy: bool },
 }
 
@@ -170,12 +179,16 @@ fn idle(h: &mut BlockHandler<CountedEp>, live: &Arc<AtomicIsize>, d: Duration, b
         return Ok(());
     }
     let t0 = std::time::Instant::now();
-    let step = d / 3;
+    let step = d / 5;
     let mut i = 0u16;
     while t0.elapsed() < total {
         std::thread::sleep(step);
+        // every fifth of the expiry other keys see a plain exchange, a
+        // download that gets cached and an upload block that gets buffered
         let ep = CountedEp::new(5000 + (i % 3) as u32, live);
         do_exchange(h, &ep, &get(b"busy", i, 1, None), &small_reply())?;
+        do_exchange(h, &ep, &get(b"busy2", i, 1, None), &big_reply(i as u8))?;
+        do_exchange(h, &ep, &put(b"busy3", i, 3, block_bytes(0, true, 0), vec![0x66; 16]), &small_reply())?;
         i += 1;
     }
     Ok(())
@@ -228,7 +241,7 @@ pub fn check(_ctx: &Ctx, c: &Case, acc: &mut Acc) -> Result<(), Fail> {
                 acc.class("retention:>=100-intervening");
             }
         }
-        Case::Expiry { upload, millis, busy } => {
+        Case::Expiry { upload, millis, busy, plain_first } => {
             let d = Duration::from_millis(*millis as u64);
             let mut h: BlockHandler<CountedEp> = new_handler(BUDGET, d);
             let me = CountedEp::new(1, &live);
@@ -237,6 +250,13 @@ pub fn check(_ctx: &Ctx, c: &Case, acc: &mut Acc) -> Result<(), Fail> {
                 let (out, calls) = do_exchange(&mut h, &me, &put(b"k", 1, 3, block_bytes(0, true, 0), first.clone()), &small_reply())?;
                 ensure!(calls == 0 && out.served_by_handler(), "harness", "buffering a block did not work");
                 idle(&mut h, &live, d, *busy)?;
+                if *plain_first {
+                    // a request without block options on the same key (PUT with a small body)
+                    let mut plain = put(b"k", 50, 3, vec![], vec![0xEF; 3]);
+                    plain.block1 = None;
+                    do_exchange(&mut h, &me, &plain, &small_reply())?;
+                    acc.class("expiry:plain-request-first");
+                }
                 let (out, calls) = do_exchange(&mut h, &me, &put(b"k", 2, 3, block_bytes(1, false, 0), vec![0xCD; 7]), &small_reply())?;
                 if calls == 1 {
                     let saw = out.app_saw.clone().unwrap_or_default();
@@ -250,6 +270,10 @@ pub fn check(_ctx: &Ctx, c: &Case, acc: &mut Acc) -> Result<(), Fail> {
             } else {
                 let blk = open_download(&mut h, &me, b"k", 9)?;
                 idle(&mut h, &live, d, *busy)?;
+                if *plain_first {
+                    do_exchange(&mut h, &me, &get(b"k", 50, 1, None), &small_reply())?;
+                    acc.class("expiry:plain-request-first");
+                }
                 let (out, calls) = do_exchange(&mut h, &me, &get(b"k", 2, 1, Some(block_bytes(1, false, blk.szx))), &big_reply(0x44))?;
                 ensure!(
                     calls == 1 && !out.served_by_handler(),
@@ -302,7 +326,7 @@ pub fn check(_ctx: &Ctx, c: &Case, acc: &mut Acc) -> Result<(), Fail> {
             {
                 let (entries, _bytes) = h.verif_live_entries();
                 ensure!(
-                    entries <= 1 + if *busy { 3 } else { 0 },
+                    entries <= 1 + if *busy { 9 } else { 0 },
                     "c20-expired-state-not-reclaimed",
                     "after expiry and one further request the handler reports {entries} live cache entries"
                 );
@@ -331,14 +355,14 @@ pub fn run(ctx: &Ctx, rep: &mut Report) {
         },
         check,
     );
-    let n = ctx.cases(48, 600);
+    let n = ctx.cases(64, 800);
     run_prop(
         ctx,
         rep,
         "expiry-after-idle",
         "expiry 20..=60 ms: open a download / buffer an upload block, leave key K idle for 4x the duration + 20 ms (in half of the cases while the handler keeps serving other keys at intervals of a third of the expiry), continue: the follow-up must reach the application / the upload must not contain the earlier bytes",
         n,
-        || (any::<bool>(), 20u16..=60, any::<bool>()).prop_map(|(upload, millis, busy)| Case::Expiry { upload, millis, busy }),
+        || (any::<bool>(), 20u16..=60, any::<bool>(), any::<bool>()).prop_map(|(upload, millis, busy, plain_first)| Case::Expiry { upload, millis, busy, plain_first }),
         check,
     );
     let n = ctx.cases(32, 200);
